@@ -36,6 +36,7 @@ const K_CLASH: &str = "rebroadcast-clash-drains-pool";
 const K_TS: &str = "bundle-asserts-timestamp-order";
 const K_ISSUANCE: &str = "type-issuance-pool";
 const K_STAKE: &str = "foreign-stake-transaction-pooled";
+const K_DUST: &str = "dust-output-spent-at-window-edge";
 
 type Rt = tokio::runtime::Runtime;
 fn bo<F: Future>(rt: &Rt, f: F) -> F::Output {
@@ -666,6 +667,7 @@ impl Rig {
         let mut gt_tbl: Vec<(u64, bool)> = vec![];
         let mut order: Vec<u64> = vec![];
         let mut block_hash_id = 0u64;
+        let mut supply_ok = true;
         let outcome;
         let mut detail = String::new();
         match bundled {
@@ -905,18 +907,33 @@ impl Rig {
                 }
 
                 // --- offer to both nodes
+                let mut supply_panic = [false, false];
                 let r1 = {
                     let rt = &self.rt;
                     let prod = &mut self.prod;
                     let b = pristine.clone();
-                    catch_unwind(AssertUnwindSafe(|| rt.block_on(prod.add_block(b)))).unwrap_or(AddClass::Panicked)
+                    match catch_unwind(AssertUnwindSafe(|| rt.block_on(prod.add_block(b)))) {
+                        Ok(r) => r,
+                        Err(e) => {
+                            supply_panic[0] = panic_text(&e).contains("invalid total supply");
+                            AddClass::Panicked
+                        }
+                    }
                 };
                 let r2 = {
                     let rt = &self.rt;
                     let peer = &mut self.peer;
                     let b = pristine.clone();
-                    catch_unwind(AssertUnwindSafe(|| rt.block_on(peer.add_block(b)))).unwrap_or(AddClass::Panicked)
+                    match catch_unwind(AssertUnwindSafe(|| rt.block_on(peer.add_block(b)))) {
+                        Ok(r) => r,
+                        Err(e) => {
+                            supply_panic[1] = panic_text(&e).contains("invalid total supply");
+                            AddClass::Panicked
+                        }
+                    }
                 };
+                supply_ok = !(supply_panic[0] || supply_panic[1]);
+                let dust_collected = cvc.total_fees_paid_by_nonrebroadcast_atr_transactions;
                 let types: Vec<u64> = fin.transactions.iter().map(|t| t.transaction_type as u64).collect();
                 detail = format!(
                     "block {} txs(types) {:?} producer {:?} second node {:?}; atr multiplier {}; diffs {:?}; create-vs-validate cv {:?}",
@@ -948,9 +965,19 @@ impl Rig {
                     findings.push((format!("the two nodes disagree on the produced block: producer {:?}, second node {:?}", r1, r2), None));
                 }
                 if r1 == AddClass::Panicked || r2 == AddClass::Panicked {
-                    findings.push(("add_block panicked on the produced block".to_string(), None));
+                    if supply_panic[0] && supply_panic[1] && !clash_pool.is_empty() && dust_collected > 0 {
+                        findings.push((
+                            format!(
+                                "the produced block {} validates on both nodes and then Blockchain::check_total_supply panics on both: a pooled transaction spends output(s) {:?} of block {}, which this block does not rebroadcast but collects as fees ({} nolan from non-rebroadcast outputs)",
+                                fin.id, clash_pool, src, dust_collected
+                            ),
+                            Some(K_DUST),
+                        ));
+                    } else {
+                        findings.push(("add_block panicked on the produced block".to_string(), None));
+                    }
                 }
-                if outcome != Outcome::Accepted {
+                if outcome != Outcome::Accepted && !(r1 == AddClass::Panicked && r2 == AddClass::Panicked && !supply_ok) {
                     let what = format!(
                         "own block {} on tip {} rejected (producer {:?}, second node {:?}); differences: {:?}",
                         fin.id, tip.id, r1, r2, diffs
@@ -1007,7 +1034,8 @@ impl Rig {
                     fin.difficulty,
                 ]);
                 e.push(vec![fin.total_work, fin.total_rebroadcast_slips, rbh, mr]);
-                e.push(vec![add_code(&r1), add_code(&r2)]);
+                let code = |r: &AddClass, sp: bool| if *r == AddClass::Panicked && sp { 905 } else { add_code(r) };
+                e.push(vec![code(&r1, supply_panic[0]), code(&r2, supply_panic[1])]);
                 e.extend(self.pool_obs());
                 expected = e;
             }
@@ -1038,7 +1066,7 @@ impl Rig {
         }
 
         let coq = format!(
-            "mkRC ({}) ({}) {} {} {} {} {} ({}) ({}) {} {} {} {} {}",
+            "mkRC ({}) ({}) {} {} {} {} {} ({}) ({}) {} {} {} {} {} {}",
             view,
             pool,
             self.it.get(&self.prod.pk.to_vec()),
@@ -1052,6 +1080,7 @@ impl Rig {
             gal::list(&gt_tbl.iter().map(|(i, b)| format!("({}, {})", i, gal::boolean(*b))).collect::<Vec<_>>()),
             hchain_tbl,
             mroot_tbl,
+            gal::boolean(supply_ok),
             gal::nllist(&expected)
         );
         let desc = format!(
@@ -1072,6 +1101,10 @@ impl Rig {
         }
         RoundResult { outcome, coq, desc, findings, had_pool }
     }
+}
+
+fn panic_text(e: &Box<dyn std::any::Any + Send>) -> String {
+    e.downcast_ref::<String>().cloned().or_else(|| e.downcast_ref::<&str>().map(|s| s.to_string())).unwrap_or_default()
 }
 
 /// Block::validate's golden ticket check: the ticket re-created on the parent's hash
@@ -1282,6 +1315,14 @@ fn scripted_spec(rig: &Rig, plan: &Plan, round: usize) -> Option<RoundSpec> {
             }
             Some(RoundSpec { items, gt: if round % 2 == 1 { GtSpec::Valid } else { GtSpec::None }, gap: big, label: "foreign-stake".to_string() })
         }
+        // dust genesis: a payer spends a tiny output in the block in which it is due
+        9 => {
+            let mut items: Vec<Item> = (2..6usize).map(|p| Item::Transfer { payer: p, fee: 20_000, hops: 1, biggest: true }).collect();
+            if rig.rebroadcast_source() == 1 {
+                items.push(Item::Clash { payer: 2 });
+            }
+            Some(RoundSpec { items, gt: if round % 2 == 1 { GtSpec::Valid } else { GtSpec::None }, gap: big, label: "dust-spend".to_string() })
+        }
         // plain deep chain, work decided by the gate (gaps below two heartbeats)
         7 => {
             let gap = match round % 4 {
@@ -1329,6 +1370,9 @@ fn run_scenario(plan: &Plan, debug: bool) -> ScenarioOut {
         findings.extend(res.findings.clone());
         if res.had_pool && matches!(res.outcome, Outcome::Accepted | Outcome::Rejected | Outcome::Split | Outcome::CreateFailed) {
             nontrivial = true;
+        }
+        if res.desc.contains("Panicked second node") || res.desc.contains("producer Panicked") {
+            break;
         }
         match res.outcome {
             Outcome::Accepted => {
@@ -1406,9 +1450,9 @@ fn main() {
         Ok(v) => v.parse().unwrap(),
         Err(_) => {
             if args.tier == "thorough" {
-                900
+                3000
             } else {
-                110
+                400
             }
         }
     };
@@ -1422,6 +1466,7 @@ fn main() {
         Plan { kind: 6, seed: 0, gp: 5, stake: 50_000, hb: 10_000, profile: 0, target_blocks: 6, adversarial: 0 },
         Plan { kind: 7, seed: 0, gp: 20, stake: 0, hb: 10_000, profile: 0, target_blocks: 46, adversarial: 0 },
         Plan { kind: 7, seed: 0, gp: 8, stake: 50_000, hb: 10_000, profile: 0, target_blocks: 20, adversarial: 0 },
+        Plan { kind: 9, seed: 0, gp: 3, stake: 0, hb: 10_000, profile: 1, target_blocks: 8, adversarial: 0 },
     ];
     for _ in 0..nrandom {
         let gp = *rng.pick(&[3u64, 3, 5, 5, 8, 8, 20]);
@@ -1475,7 +1520,7 @@ fn main() {
                 if o.nontrivial && distinct.insert(o.coq.clone()) {
                     summary.nontrivial += 1;
                 }
-                if summary.samples.len() < 3 && o.rounds > 3 && idx >= 7 {
+                if summary.samples.len() < 3 && o.rounds > 3 && idx >= 10 {
                     summary.samples.push(o.desc.clone());
                 }
                 summary.case_descs.push(o.desc);
